@@ -15,6 +15,8 @@ import (
 
 	"github.com/rs/zerolog"
 
+	"github.com/yandex/mysync/internal/config"
+
 	"github.com/yandex/mysync/internal/mysql/gtids"
 	"github.com/yandex/mysync/internal/verif/vt"
 )
@@ -168,6 +170,9 @@ type c14Case struct {
 	Cands []c14Cand `json:"cands"`
 	Bound float64   `json:"bound_s"`
 	From  int       `json:"from"` // index of the host the switch moves away from, -1 none
+	// Optimize: choose through getMostDesirableReplicaToOptimize (the "or to optimise" path of the
+	// statement; the bound is the high replication mark) instead of getMostDesirableNode
+	Optimize bool `json:"choose_replica_to_optimize,omitempty"`
 }
 
 var vNop = zerolog.Nop()
@@ -190,6 +195,12 @@ func c14Run(r *vt.Run, fam map[uint8]vSet, c c14Case) {
 	}
 	ch := make(chan res, 1)
 	go func() {
+		if c.Optimize {
+			app := &App{logger: &vNop, config: &config.Config{OptimizationConfig: config.OptimizationConfig{HighReplicationMark: bound}}}
+			h, err := app.getMostDesirableReplicaToOptimize(pos)
+			ch <- res{h, err}
+			return
+		}
 		h, err := getMostDesirableNode(&vNop, pos, bound)
 		ch <- res{h, err}
 	}()
@@ -207,6 +218,9 @@ func c14Run(r *vt.Run, fam map[uint8]vSet, c c14Case) {
 		}
 	}
 	bad := func(clause, msg string) {
+		if c.Optimize {
+			clause += "/replica-to-optimize"
+		}
 		r.Violate("C14/"+clause, fmt.Sprintf("%s; candidates=%+v bound=%vs from=%q result=%q err=%v", msg, c.Cands, c.Bound, from, got.host, got.err), c)
 	}
 	// offered = all minus from
@@ -386,12 +400,17 @@ func checkC14(r *vt.Run) {
 					if from >= n {
 						continue
 					}
-					c := c14Case{cands, b, from}
+					c := c14Case{Cands: cands, Bound: b, From: from}
 					if n == 3 && code == 77777 && b == 60 && from == 0 {
 						r.Sample(c)
 					}
 					r.Crumb(c)
 					c14Run(r, fam, c)
+					if n <= 2 || r.Thorough() && n <= 3 {
+						c.Optimize = true
+						r.Crumb(c)
+						c14Run(r, fam, c)
+					}
 				}
 			}
 		}
